@@ -125,7 +125,9 @@ func c09BFS(w *h.W, f *c09Family) {
 				return
 			}
 			pc := c09Case(f, nd.init, nd.hist)
+			w.Guard(pc)
 			res, first, inconc := h.RunProg(pc)
+			w.Unguard()
 			w.Eval(1)
 			w.Transitions(1)
 			last := nd.hist[len(nd.hist)-1]
